@@ -310,7 +310,7 @@ def run_shard(tier, seed, shard, nshards, res):
                 ok = run_history(dc, sc, res, c, [tpl[j] for j in h], 'systematic %r' % (h,))
                 res.count('systematic_histories_run')
                 res.seen('systematic_histories', (h, c['eviction_policy']))
-                if not ok and res.counters.get('violations_raw', 0) > 20:
+                if not ok and res.new_violations() > 20:
                     return
         # (ii) random
         n_hist = 12 if tier == 'quick' else 150
@@ -327,5 +327,5 @@ def run_shard(tier, seed, shard, nshards, res):
                 res.count('iter_over_100_rows')
             if len(res.samples) < 2:
                 res.sample({'config': cfg, 'first_calls': steps[:12], 'calls': len(steps)})
-            if res.counters.get('violations_raw', 0) > 20:
+            if res.new_violations() > 20:
                 return
